@@ -600,6 +600,7 @@ for _p in ['C11', 'C12', 'C01', 'C02', 'C04', 'C05', 'C06', 'C07', 'C08', 'C09',
     MUTANTS.append({'prop': _p, 'id': 'locals-renamed-tree', 'kind': 'T', 'edits': 'RENAME'})
 
 # ------------------------------------------------------------------ every property: whole-tree behaviour-preserving rewrites
-for _how, _id in (('FLIPCMP', 'comparisons-flipped-tree'), ('SWAPIF', 'branches-swapped-tree'), ('RETTMP', 'returns-through-temporaries-tree')):
+for _how, _id in (('FLIPCMP', 'comparisons-flipped-tree'), ('SWAPIF', 'branches-swapped-tree'), ('RETTMP', 'returns-through-temporaries-tree'),
+                  ('COMPVARS', 'comprehension-variables-renamed-tree'), ('HOISTARG', 'nested-calls-hoisted-tree')):
     for _p in ['C11', 'C12', 'C01', 'C02', 'C04', 'C05', 'C06', 'C07', 'C08', 'C09', 'C10', 'C13', 'C14', 'C15', 'C16', 'C18', 'C19', 'C20']:
         MUTANTS.append({'prop': _p, 'id': _id, 'kind': 'T', 'edits': _how})
